@@ -122,6 +122,8 @@ def gen_c12(rng, n_scripts, per_script):
                 mode = 10
             if mode < 3:
                 lines.append("enc " + record_text(r))
+                # and the round trip inside the implementation: decode(encode r) re-encodes to the same bytes
+                lines.append("rt " + record_text(r))
                 continue
             if r[0] == "A" and len(token_bytes(r[2])) > 600:
                 r = ("A", r[1], rnd_bytes_token(rng, [0, 1, 7, 300]))
